@@ -4,10 +4,10 @@ From Coq Require Import ZifyBool ZifyN ZifyNat.
 From FV.C16 Require Import Model ProofsBox ProofsRank ProofsOverlay ProofsFirst ProofsSubs ProofsPreflight.
 Import ListNotations.
 
-(* what a caller has to provide: boxes built with NBox::insert, at least one condition set
-   per rule, substitution maps that are maps *)
+(* what a caller has to provide: boxes built with NBox::insert, substitution maps that are maps
+   (a rule may have any number of condition sets, none included) *)
 Definition rule_wf (U : Z) (r : rule) : Prop :=
-  Forall (wf_box U) (fst r) /\ fst r <> [] /\ keys_sorted (snd r).
+  Forall (wf_box U) (fst r) /\ keys_sorted (snd r).
 Definition rules_wf (U : Z) (rules : list rule) : Prop := Forall (rule_wf U) rules.
 
 Lemma mss_insert_length acc s r : (length (mss_insert acc s r) <= S (length acc))%nat.
@@ -51,11 +51,10 @@ Section Pipeline.
   Let rules2 := preflight U rules.
 
   Lemma rules1_from r1 : In r1 rules1 ->
-    fst r1 <> [] /\ keys_sorted (snd r1) /\ forall c, In c (fst r1) -> exists reg s, In (reg, s) rules /\ In c reg.
+    keys_sorted (snd r1) /\ forall c, In c (fst r1) -> exists reg s, In (reg, s) rules /\ In c reg.
   Proof.
-    intros Hin. destruct r1 as [reg s]. cbn [fst snd]. unfold rules_wf in Hwf. rewrite Forall_forall in Hwf. split; [|split].
-    - apply (mss_nonempty rules (fun r Hr => proj1 (proj2 (Hwf r Hr))) (reg, s) Hin).
-    - destruct (mss_maps rules reg s Hin) as [reg' Hr']. exact (proj2 (proj2 (Hwf _ Hr'))).
+    intros Hin. destruct r1 as [reg s]. cbn [fst snd]. unfold rules_wf in Hwf. rewrite Forall_forall in Hwf. split.
+    - destruct (mss_maps rules reg s Hin) as [reg' Hr']. exact (proj2 (Hwf _ Hr')).
     - intros c Hc. destruct (mss_boxes rules reg s c Hin Hc) as [reg' [H1 H2]]. now exists reg', s.
   Qed.
 
@@ -71,7 +70,7 @@ Section Pipeline.
   Proof.
     intros Hin Hc. destruct (rules2_from r2 Hin) as [reg [s [Hi Hr]]]. rewrite Hr in Hc.
     apply normalize_boxes in Hc as [c [Hc ->]]. exists c. split; [reflexivity|].
-    destruct (rules1_from (reg, s) Hi) as [_ [_ Hb]]. destruct (Hb c Hc) as [reg0 [s0 [Hi0 Hc0]]].
+    destruct (rules1_from (reg, s) Hi) as [_ Hb]. destruct (Hb c Hc) as [reg0 [s0 [Hi0 Hc0]]].
     unfold rules_wf in Hwf. rewrite Forall_forall in Hwf. destruct (Hwf _ Hi0) as [Hw _]. rewrite Forall_forall in Hw.
     split; [now apply Hw|]. unfold all_boxes. apply in_flat_map. now exists (reg0, s0).
   Qed.
@@ -80,14 +79,6 @@ Section Pipeline.
   Proof.
     rewrite Forall_forall. intros r2 Hin. rewrite Forall_forall. intros c' Hc.
     destruct (rules2_box r2 c' Hin Hc) as [c [-> [Hw _]]]. now apply wf_box_cleanup.
-  Qed.
-
-  Lemma rules2_nonempty : Forall (fun r => fst r <> []) rules2.
-  Proof.
-    rewrite Forall_forall. intros [r' s'] Hin. destruct (rules2_from _ Hin) as [reg [s [Hi Hr]]]. cbn [fst] in *. subst r'.
-    destruct (rules1_from (reg, s) Hi) as [Hne _]. cbn [fst] in Hne. destruct reg as [|c t]; [contradiction|].
-    intros Hnil. assert (Hc : In (box_cleanup U c) (region_normalize U (c :: t))) by (apply normalize_boxes; exists c; split; [now left|reflexivity]).
-    rewrite Hnil in Hc. destruct Hc.
   Qed.
 
   Lemma rules2_lo a x : lo_edge U rules2 a x -> lo_edge U rules a x.
@@ -103,19 +94,17 @@ Section Pipeline.
     now rewrite box_cleanup_get in Hx by apply Hw.
   Qed.
 
-  Hypothesis Hn : (length (preflight U rules) <= 64)%nat.
-
-  (* no panic, whatever the rules are (up to 64 after merging) *)
+  (* no panic, whatever the rules are and however many *)
   Lemma overlay_no_panic : exists items, overlay_feature_variations U rules = Ok items.
   Proof.
-    unfold overlay_feature_variations. eexists. apply (overlay_merged_ok U rules2 rules2_wf Hn).
+    unfold overlay_feature_variations. eexists. apply (overlay_merged_ok U rules2 rules2_wf).
   Qed.
 
   Lemma overlay_items_wf items : overlay_feature_variations U rules = Ok items -> Forall (fun it => wf_box U (fst it)) items.
   Proof.
-    unfold overlay_feature_variations. fold rules2. rewrite (overlay_merged_ok U rules2 rules2_wf Hn).
+    unfold overlay_feature_variations. fold rules2. rewrite (overlay_merged_ok U rules2 rules2_wf).
     intros H; inversion H; subst. rewrite Forall_forall. intros it Hit. apply in_map_iff in Hit as [e [<- He]].
-    apply filter_In in He as [He _]. pose proof (sorted_sound U rules2 rules2_wf Hn) as Hs. rewrite Forall_forall in Hs.
+    apply filter_In in He as [He _]. pose proof (sorted_sound U rules2 rules2_wf) as Hs. rewrite Forall_forall in Hs.
     destruct (Hs _ He) as [Hw _]. exact Hw.
   Qed.
 
@@ -126,7 +115,7 @@ Section Pipeline.
     forall s, In s maps -> In s (active_maps (preflight U rules) q).
   Proof.
     unfold overlay_feature_variations. fold rules2. intros Hov b maps Hin q Hq Hqb s Hs.
-    destruct (items_sound U rules2 rules2_wf Hn items Hov b maps Hin) as [Hwb Hall].
+    destruct (items_sound U rules2 rules2_wf items Hov b maps Hin) as [Hwb Hall].
     apply (in_boxb_in_box U q b Hwb Hq) in Hqb.
     destruct (Hall q s Hqb Hs) as [k [[reg s'] [Hk [Hs' [r' [Hk' [c [Hc Hqc]]]]]]]]. cbn [snd] in Hs'. subst s'.
     rewrite Hk in Hk'. inversion Hk'; subst r'. cbn [fst] in Hc.
@@ -147,7 +136,7 @@ Section Pipeline.
       first_match items p = match active_maps (preflight U rules) p with [] => None | l => Some l end.
   Proof.
     unfold overlay_feature_variations. fold rules2.
-    apply (first_match_active U rules2 rules2_wf rules2_nonempty Hn p Hd).
+    apply (first_match_active U rules2 rules2_wf p Hd).
     intros a Hl Hh. apply (Hexcl a); [now apply rules2_lo|now apply rules2_hi].
   Qed.
 
@@ -159,7 +148,7 @@ Section Pipeline.
     { apply binds_active. intros s. apply mss_fires. }
     assert (Hc1 : compatible (active_maps rules1 p)).
     { eapply compatible_ext; [|exact Hc]. intros g' x'. symmetry. apply H1. }
-    rewrite (msr_binds U p Hd rules1 (fun r Hr => proj1 (proj2 (rules1_from r Hr))) Hc1). apply H1.
+    rewrite (msr_binds U p Hd rules1 (fun r Hr => proj1 (rules1_from r Hr)) Hc1). apply H1.
   Qed.
 
   (* ... and applying its maps in the order given is what the source rules say *)
